@@ -3,6 +3,7 @@
 //! Coq terms of Model/Lang.v, and run the real compiler+VM at each level.
 //!   AST\t<i>\t<level>\t<coq term>          (level "in" = before optimisation)
 //!   RUN\t<i>\t<level>\t<class>\t<output>\t<value>\t<detail>
+//!   WIN\t<i>\t<level>\t<frame-pushing calls emitted>\t<those with a register in use above their window>
 //!   FRONT\t<i>\t<error>                    (front end rejected the program)
 //! With --passes dce,fold each named pass is also run ALONE on the input AST:
 //!   AST\t<i>\tpass:<name>\t<coq term>
@@ -75,8 +76,13 @@ fn main() {
                     Err(p) => println!("AST\t{}\t{}\tPANIC {}", i, l, esc(&p)),
                 }
                 if do_run {
+                    let _ = aelys_backend::verif::take_call_windows();
                     let r = run_program(p, l, gc, budget, None);
                     println!("RUN\t{}\t{}\t{}\t{}\t{}\t{}", i, l, r.class, esc(&r.output), esc(&r.value), esc(&r.detail));
+                    // frame-pushing calls the compiler emitted, and those with a register in use above their window
+                    let (calls, bad) = aelys_backend::verif::take_call_windows();
+                    let bad: Vec<String> = bad.iter().map(|w| format!("{}:{}:base={}:nargs={}:in-use-above={:?}", w.op, w.function, w.base, w.nargs, w.in_use_above)).collect();
+                    println!("WIN\t{}\t{}\t{}\t{}", i, l, calls, esc(&bad.join(";")));
                 }
             }
         }
